@@ -161,7 +161,7 @@ func (m *popMonitor) AfterEpoch(c *Ctx, sc *EvoScenario, gen int, pop *genetics.
 		return false
 	}
 	c.Count("epochs", 1)
-	c.Count("epochs.fitness."+fitNames[sc.Fitness], 1)
+	c.Count("epochs.fitness."+fitName(sc.Fitness), 1)
 	if sc.Parallel {
 		c.Count("epochs.parallel", 1)
 	}
